@@ -411,8 +411,59 @@ def check_outside(ctx, teneva, lo_pts, hi_pts, a, b, n, kind, args, what):
 
 # ---- family grid1d ---------------------------------------------------------------
 
+def run_exact_corners(ctx, teneva, rng):
+    """(a) Dyadic boxes [0, 2^j] with n - 1 = 2^p nodes: the scaling is exact
+    in binary, so the nearest node of a point one ulp next to a cell midpoint
+    is decided exactly - no rounding slack applies.  (b) Very wide boxes
+    (width up to 1e307): every index maps to a finite point of the box."""
+    from fractions import Fraction as Fr
+    j, pw = int(rng.integers(-3, 4)), int(rng.integers(0, 6))
+    n, bnd = 2 ** pw + 1, 2.0 ** j
+    h = bnd / 2 ** pw                              # node spacing, exact
+    pts, want = [], []
+    for c in rng.integers(0, 2 ** pw, size=min(6, 2 ** pw)):
+        mid = (int(c) + 0.5) * h
+        for x, w in ((np.nextafter(mid, -np.inf), int(c)),
+                (np.nextafter(mid, np.inf), int(c) + 1)):
+            pts.append(float(x))
+            want.append(w)
+    X = np.array(pts).reshape(-1, 1)
+    J = teneva.poi_to_ind(X, 0., bnd, n, 'uni')
+    ok = is_int_array(J, X.shape) and J[:, 0].tolist() == want
+    ctx.check('nearest', ok, lambda: f'uniform grid on the dyadic box [0, '
+        f'{bnd}] with n = {n}: points one ulp next to cell midpoints '
+        f'{[float(x).hex() for x in pts[:4]]} -> {np.asarray(J)[:4, 0].tolist()}'
+        f', the strictly nearest nodes are {want[:4]}')
+    x1 = float(X[0, 0])
+    J1 = teneva.poi_to_ind(np.array([x1]), 0., bnd, n, 'uni')
+    ctx.check('nearest', int(np.asarray(J1).reshape(-1)[0]) == want[0],
+        'single point one ulp below a cell midpoint (dyadic box)')
+    # (b)
+    wdt = float(10.0 ** rng.uniform(300, 307.5))
+    a_ = [0., -wdt / 2, -wdt * 0.9][int(rng.integers(3))]
+    b_ = a_ + wdt
+    nn = int(rng.integers(2, 400))
+    I = np.arange(nn).reshape(-1, 1)
+    for kind in ('uni', 'cheb'):
+        Xp = teneva.ind_to_poi(I, a_, b_, nn, kind)
+        fin = isinstance(Xp, np.ndarray) and bool(np.all(np.isfinite(Xp)))
+        inb = fin and bool(np.all(Xp >= a_ - 8 * EPS * wdt)
+            and np.all(Xp <= b_ + 8 * EPS * wdt))
+        ctx.check('in-box', inb, lambda: f'{kind} grid on the box [{a_!r}, '
+            f'{b_!r}] (width {wdt:.3e}), n = {nn}: non-finite points or '
+            f'points outside the box: {np.asarray(Xp)[~np.isfinite(Xp)][:3]}')
+        if inb:
+            Jb = teneva.poi_to_ind(Xp, a_, b_, nn, kind)
+            ctx.check('roundtrip', is_int_array(Jb, I.shape) and
+                np.array_equal(Jb, I), f'{kind} grid on a box of width '
+                f'{wdt:.3e}: index -> point -> index is not the identity')
+    ctx.event('exact-corner-cases')
+
+
 def run_grid1d(case, ctx, teneva):
     rng = np.random.default_rng(case['seed'])
+    if rng.random() < 0.03:
+        run_exact_corners(ctx, teneva, rng)
     kind, n = case['kind'], int(case['n'])
     a, b = gen_box(rng, case['style'], kmax_of(n, kind))
     K = ratio(a, b)
